@@ -57,7 +57,15 @@ pub fn gen_scenario(rng: &mut SmallRng, limit: u32) -> Value {
     let mut next = 1u64;
     let mut budget = n;
     let mut idles = 0;
+    let mut queued_reset_done = false;
     while budget > 0 || !open.is_empty() {
+        // every scenario has a client that resets while it waits for a slot (server full, it is the newest waiter)
+        if !queued_reset_done && open.len() >= limit as usize + 2 {
+            let id = open.pop().unwrap();
+            steps.push(json!({"a": "end", "id": id, "way": "reset"}));
+            queued_reset_done = true;
+            continue;
+        }
         let can_open = budget > 0 && open.len() < limit as usize + 3;
         if can_open && (open.is_empty() || rng.gen_bool(0.55)) {
             steps.push(json!({"a": "connect", "id": next}));
